@@ -159,4 +159,22 @@ theorem chunk_size_le (tm : Template) (maxSize : Nat) (t : Transmit) (c : GCmd)
     unfold budget Template.length at *
     omega
 
+/-- a successful `send` of a transmit command wrote exactly the chunks of `split`, each through the template -/
+theorem send_inv {tm : Template} {maxSize : Nat} {t : Transmit} {out : List Bytes}
+    (h : send tm maxSize (.transmit t) = .ok out) :
+    1 ≤ maxPayload tm maxSize t ∧ out = (t.split (maxPayload tm maxSize t)).map (toBytes tm) := by
+  by_cases hm : maxPayload tm maxSize t < 1
+  · simp [send, hm] at h
+  · simp only [send, hm, if_false] at h
+    cases h
+    exact ⟨by omega, rfl⟩
+
+theorem mapM_map_some {α β γ} (l : List α) (f : α → β) (g : β → Option γ) (k : α → γ)
+    (H : ∀ a ∈ l, g (f a) = some (k a)) : (l.map f).mapM g = some (l.map k) := by
+  induction l with
+  | nil => rfl
+  | cons a rest ih =>
+    simp only [List.map_cons, List.mapM_cons, H a (by simp), ih (fun x hx => H x (by simp [hx]))]
+    rfl
+
 end Tup.Command
